@@ -11,7 +11,7 @@ from common import hx
 FILES = ["gen/Gen_tensors.v", "gen/Gen_polar.v", "Model_voigt.v", "Model_decomp.v", "Proofs_tensors_alg.v"] + \
         [f"Proofs_tensors_rot{i}.v" for i in range(9)] + \
         ["Proofs_tensors_rot.v", "Proofs_tensors_maps.v", "Proofs_tensors_proj.v",
-         "Proofs_tensors_polar.v", "Inst_tensors.v", "Proofs_tensors_polar2.v", "Entry_tensors.v", "Extract_tensors.v"]
+         "Proofs_tensors_polar.v", "Inst_tensors.v", "Inst_polar.v", "Proofs_tensors_polar2.v", "Entry_tensors.v", "Extract_tensors.v"]
 PROP = "Properties/C11.v"
 
 VOIGT = {(0, 0): 0, (1, 1): 1, (2, 2): 2, (1, 2): 3, (2, 1): 3, (0, 2): 4, (2, 0): 4, (0, 1): 5, (1, 0): 5}
@@ -22,6 +22,15 @@ KF_TETR_INT = ("key=C11:tetr_project:integer-dtype-truncation tetr_project write
                "for an integer-dtype vector the half-integers are truncated (the value depends on the dtype of the same numbers)")
 KF_POLAR_RIGHT = ("key=C11:polar_decompose:right-variant-singular-input polar_decompose(M, left=False) computes M @ inv(Vh^T diag(S) Vh): "
                   "for a singular M it raises LinAlgError or returns a non-orthogonal first factor (a right polar decomposition exists: R = U @ Vh)")
+
+KEY_TETR_INT = "C11:tetr_project:integer-dtype-truncation"
+KEY_POLAR_RIGHT = "C11:polar_decompose:right-variant-singular-input"
+
+
+def finding_fixed(key):
+    """a finding listed as `fixed:` in known_findings.json suppresses nothing: its witness is then a violation"""
+    return any(f.get("key") == key and str(f.get("status", "")).startswith("fixed") for f in common.load_known_findings())
+
 
 SHAPES = {"M": (6, 6), "x": (21,), "y": (21,), "R1": (3, 3), "R2": (3, 3), "A": (3, 3),
           "B": (3, 3), "Mi": (6, 6), "xi": (21,), "Ti": (3, 3, 3, 3), "Ri": (3, 3)}
@@ -116,7 +125,12 @@ def oracle(T, b):
             if fl:
                 f.append(f"left polar decomposition of {nm}: " + "; ".join(fl))
             cond = np.linalg.cond(X) if np.any(X) else np.inf
-            if cond < 1e6:                     # singular inputs of the right variant: open finding KF_POLAR_RIGHT
+            if cond >= 1e6 and finding_fixed(KEY_POLAR_RIGHT):
+                R, U = T.polar_decompose(X.copy(), False)
+                fl = G.polar_clauses(X / sx_, R, np.asarray(U) / sx_, False, tol=1e-7)
+                if fl:
+                    f.append(f"right polar decomposition of the singular {nm}: " + "; ".join(fl))
+            if cond < 1e6:                     # singular inputs of the right variant: finding KF_POLAR_RIGHT while open
                 R, U = T.polar_decompose(X.copy(), False)
                 fl = G.polar_clauses(X / sx_, R, np.asarray(U) / sx_, False, tol=1e-7, otol=max(1e-7, 1e-12 * cond ** 2))
                 if fl:
@@ -205,8 +219,8 @@ def oracle_presentations(T, b):
         if dv is not None and (far(dv[0], np.einsum("ijkk->ij", ref), tol, sm) or far(dv[1], np.einsum("ijkj->ik", ref), tol, sm)):
             f.append(f"voigt_decompose of the {kind} presentation is not the pair of contractions")
         for k, p in enumerate(P):
-            if p is T.tetr_project and kind in G.PRES_INTEGER:
-                continue                        # open finding KF_TETR_INT (reported by the correspondence while it reproduces)
+            if p is T.tetr_project and kind in G.PRES_INTEGER and not finding_fixed(KEY_TETR_INT):
+                continue                        # finding KF_TETR_INT while open (reported by the correspondence while it reproduces)
             px = attempt(kind, p.__name__, lambda: p(G.present(xi, kind)))
             if px is None:
                 continue
@@ -245,7 +259,7 @@ def run(chk):
         "Inst_tensors.rotate4_is_k_rotate (kernel-checked, all 81 components) ties it to the generated k_rotate",
         "polar_decompose: Gen_polar.k_polar_decompose_left/right are regenerated from the source over the SVD oracle (tie T; the translator checks that "
         "np.linalg.svd is applied to the argument, at most once; np.linalg.inv = adjugate/det, LinAlgError = ValueError; 3x3 `@`, np.diag, transpose, astype(float64) "
-        "added in specs_tensors.TArr/PolarProxy) and equated with Model_decomp.polar_left/right by Inst_tensors.polar_left_inst/polar_right_inst; oracle hypotheses "
+        "added in specs_tensors.TArr/PolarProxy) and equated with Model_decomp.polar_left/right by Inst_polar.polar_left_inst/polar_right_inst; oracle hypotheses "
         "U^T U = U U^T = I, Vh Vh^T = Vh^T Vh = I, S >= 0, M = U diag(S) Vh residual-checked on the SVD the interpreted source really received (recorded)",
     ]
     chk.cov["rule"] = ("polar_decompose: both variants over 19 input families (exactly symmetric indefinite / negative definite / PSD-singular, rank 2 / 1 / 0, "
@@ -264,7 +278,8 @@ def run(chk):
         for name, (gen, fn) in G.entries(T).items():
             bad += G.compare_entry(chk, name, gen, fn, n, rng)
         # polar_decompose: every input family, generated code on the recorded SVD, clauses incl. PSD
-        pb, pk = G.compare_polar(chk, T, 6 if chk.tier == "quick" else 150, np.random.default_rng(chk.seed + 2))
+        pb, pk = G.compare_polar(chk, T, 6 if chk.tier == "quick" else 150, np.random.default_rng(chk.seed + 2),
+                                 right_singular_open=not finding_fixed(KEY_POLAR_RIGHT))
         bad += pb
         if pk:
             nm, fam, detail, m = pk[0]
@@ -272,7 +287,8 @@ def run(chk):
             chk.known_finding(f"{KF_POLAR_RIGHT}; reproduced on {len(pk)} singular inputs, e.g. family {fam}, "
                               f"M = {np.asarray(m).tolist()}: {detail}")
         # dtype / layout / container presentations of integer-valued inputs
-        qb, qk = G.compare_presentations(chk, T, 2 if chk.tier == "quick" else 40, np.random.default_rng(chk.seed + 3))
+        qb, qk = G.compare_presentations(chk, T, 2 if chk.tier == "quick" else 40, np.random.default_rng(chk.seed + 3),
+                                         tetr_open=not finding_fixed(KEY_TETR_INT))
         bad += qb
         if qk:
             chk.cov["known_tetr_integer_dtype"] = len(qk)
